@@ -932,8 +932,6 @@ func laws(sel int, in, got []int64, law func(lsel int, lin []int64, sig string))
 		law(111, capabilityInput(x, last.runs[0]), "")
 		return
 	}
-	var excuse []int64
-	var excuseN int64
 	for i, r := range last.runs {
 		// float part of the correspondence, once per run (map order)
 		lin := append([]int64{}, in...)
@@ -980,17 +978,9 @@ func laws(sel int, in, got []int64, law func(lsel int, lin []int64, sig string))
 				}
 			}
 			law(108, ab, "")
-			// the literal clause (no tolerance): known finding, see known-findings.json
-			law(109, ab, "C12/map-order-dependent-deserved")
-			// ... and the finding's excuse, unsigned: a difference is tolerated only on a case the
-			// exact model classifies as not robust, and only up to the 0.1 tolerance
-			// (one law case for both pairs: the model's robustness verdict is computed once)
-			excuse = append(excuse, ab[2:]...)
-			excuseN += ab[1]
-			if i == len(last.runs)-1 {
-				e := append(append([]int64{}, in...), excuseN)
-				law(112, append(e, excuse...), "")
-			}
+			// the literal clause, no tolerance and no excuse: since /repo fix 7b69dc3 the loop visits the
+			// queues in a fixed order, every map order must give identical shares
+			law(109, ab, "")
 		}
 	}
 }
